@@ -1,21 +1,32 @@
-(* C14 property theorems.  Statements only; proofs are in Proofs.v.
+(* C14 property theorems.  Statements only; proofs are in Proofs.v (spend side,
+   state invariant SInv), SpendLog.v (spend side, event stream), ConfInvA/L/Q.v
+   and ConfMain.v (confirmation side).
 
    World (Spec.v): the model of TxNotifier projected on one request, the active
-   chain it has been told about, and the log of all events sent.  [sreach w0 w]
-   = w is reached from w0 by calls that satisfy the environment obligations
-   [svalid]: client hints not above the actual spend height, truthful rescan
-   answers delivered while some client is registered, ConnectTip followed by
-   NotifyHeight, an outpoint spent at most once on the chain, reorgs within
-   reorgSafetyLimit of the highest tip seen.  No bound on the number of calls,
-   clients, heights or the reorg shape.
+   chain it has been told about (ghost), and the log of all events sent.
+   [sreach w0 w] / [creach w0 w] = w is reached from w0 by calls that satisfy
+   the environment obligations [svalid] / [cvalid]: client height hints not
+   above the actual spend/confirmation height, truthful rescan answers
+   delivered while some client is registered, ConnectTip followed by
+   NotifyHeight before the next connect/disconnect, a txid confirmed (an
+   outpoint spent) at most once on the chain, reorgs within reorgSafetyLimit of
+   the highest tip seen, inclusions of unwatched requests at or above their
+   cached hint.  No bound on the number of calls, clients, heights,
+   confirmation depths or the reorg shape.  Runs in which the model predicts a
+   Go panic are excluded (step = None).
 
-   Proved here: the spend side.  The confirmation side (C14_conf_exact,
-   C14_reorg_before_reconf, conf half of C14_hint_safe) is modelled and tied
-   but NOT proved -- see notes/C14.md. *)
+   "What a client has been told" ([slstate] / [clstate]) is a fold over ITS
+   events: [None] = it received a second Spend / Confirmed without a Reorg /
+   NegativeConf in between; [Some x] = x is its latest un-reorged Spend /
+   un-negated Confirmed, if any. *)
 From Coq Require Import List NArith.
-From LV Require Import Notifier.Model Notifier.Spec Notifier.Proofs.
+From LV Require Import Notifier.Model Notifier.Spec Notifier.Proofs Notifier.SpendLog
+  Notifier.ConfMain.
 Import ListNotations.
 Local Open Scope N_scope.
+
+(* ================================================================== *)
+(* spends                                                               *)
 
 (* the persisted spend hint never exceeds the height at which the outpoint is
    spent on the active chain: a rescan from the hint cannot miss the spend *)
@@ -25,14 +36,10 @@ Theorem C14_spend_hint_safe :
     forall x h t, shint (sw_st w) = Some x -> spos (sw_chain w) = Some (h, t) -> x <= h.
 Proof. exact spend_hint_safe. Qed.
 
-(* partial form of C14_spend_exact: the spend details cached by the notifier --
-   the only source of Spend notifications -- are always those of the ACTIVE
-   chain; once the rescan is complete, no details means not spent; and with no
-   details no client is marked as notified.  Missing for the full statement:
-   the link between the dispatched flag and the per-client event stream
-   ("dispatched <-> last Spend not followed by Reorg", all clients dispatched
-   after NotifyHeight). *)
-Theorem C14_spend_details_on_chain_partial :
+(* the spend details cached by the notifier are always those of the ACTIVE
+   chain; once the rescan is complete, no details means not spent; with no
+   details no client is marked as notified *)
+Theorem C14_spend_details_on_chain :
   forall ch start lim h0 w,
     sstart_ok ch start lim h0 -> sreach (sinit ch start lim h0) w ->
     forall s, sset (sw_st w) = Some s ->
@@ -41,10 +48,106 @@ Theorem C14_spend_details_on_chain_partial :
       (ss_det s = None -> forall c, In c (ss_ntfns s) -> s_disp c = false).
 Proof. exact spend_details_on_chain. Qed.
 
+(* for every registered client, after every call: (1) the dispatched flag is
+   exactly "its last Spend has not been followed by a Reorg" and that Spend
+   carried the cached details; (2) what it has been told is the spend on the
+   ACTIVE chain; (3) whenever the outpoint is spent on the active chain (rescan
+   finished, no NotifyHeight outstanding) it has been told exactly that spend *)
+Theorem C14_spend_exact :
+  forall ch start lim h0 w,
+    sstart_ok ch start lim h0 -> sreach (sinit ch start lim h0) w ->
+    forall s c, sset (sw_st w) = Some s -> In c (ss_ntfns s) ->
+      slstate (s_id c) (sw_log w) = Some (if s_disp c then ss_det s else None) /\
+      (forall h t, slstate (s_id c) (sw_log w) = Some (Some (h, t)) ->
+         spos (sw_chain w) = Some (h, t)) /\
+      (sw_pending w = false -> ss_rescan s = RComplete ->
+       forall h t, spos (sw_chain w) = Some (h, t) ->
+         slstate (s_id c) (sw_log w) = Some (Some (h, t))).
+Proof. exact spend_exact. Qed.
+
+(* no client (registered, cancelled or pruned) ever receives a second Spend
+   without a Reorg in between *)
+Theorem C14_reorg_before_respend :
+  forall ch start lim h0 w,
+    sstart_ok ch start lim h0 -> sreach (sinit ch start lim h0) w ->
+    forall id, slstate id (sw_log w) <> None.
+Proof. exact spend_reorg_before_respend. Qed.
+
+(* ================================================================== *)
+(* confirmations                                                        *)
+
+(* the persisted confirm hint never exceeds the height at which the tx is
+   confirmed on the active chain *)
+Theorem C14_conf_hint_safe :
+  forall ch start lim h0 w,
+    cstart_ok ch start lim h0 -> creach (cinit ch start lim h0) w ->
+    forall x h b, hint (cw_st w) = Some x -> cpos (cw_chain w) = Some (h, b) -> x <= h.
+Proof. exact conf_hint_safe. Qed.
+
+(* for every registered client (NumConfirmations = c_n c), after every call:
+   (1) the dispatched flag is exactly "its last Confirmed has not been followed
+   by a NegativeConf" and that Confirmed carried the cached details; (2) an
+   un-negated Confirmed names the block of the ACTIVE chain that holds the tx;
+   (3) whenever the tx has >= NumConfirmations confirmations on the active chain
+   (rescan finished, no NotifyHeight outstanding) the client's latest
+   un-negated Confirmed is that block *)
+Theorem C14_conf_exact :
+  forall ch start lim h0 w,
+    cstart_ok ch start lim h0 -> creach (cinit ch start lim h0) w ->
+    forall s c, cset (cw_st w) = Some s -> In c (cs_ntfns s) ->
+      clstate (c_id c) (cw_log w) = Some (if c_disp c then cs_det s else None) /\
+      (forall h b, clstate (c_id c) (cw_log w) = Some (Some (h, b)) ->
+         cpos (cw_chain w) = Some (h, b)) /\
+      (cw_pending w = false -> cs_rescan s = RComplete ->
+       forall h b, cpos (cw_chain w) = Some (h, b) -> h + c_n c - 1 <= cur (cw_st w) ->
+         clstate (c_id c) (cw_log w) = Some (Some (h, b))).
+Proof. exact conf_exact. Qed.
+
+(* emission time: every Confirmed event sent by any call names the block of the
+   active chain (as of the end of that call) that holds the tx, and is sent to
+   a registered client only when the tx has >= NumConfirmations confirmations
+   on that chain *)
+Theorem C14_conf_exact_emit :
+  forall ch start lim h0 w o w',
+    cstart_ok ch start lim h0 -> creach (cinit ch start lim h0) w ->
+    cvalid w o -> cwstep w o = Some w' ->
+    forall ev, cw_log w' = cw_log w ++ ev ->
+    forall id h b, In (id, EConf h b) ev ->
+      cpos (cw_chain w') = Some (h, b) /\
+      exists s c, cset (cw_st w') = Some s /\ In c (cs_ntfns s) /\ c_id c = id /\
+        h + c_n c - 1 <= cur (cw_st w').
+Proof. exact conf_emit. Qed.
+
+(* no client ever receives a second Confirmed without a NegativeConf in
+   between (so a reorg notice always precedes a renewed confirmation) *)
+Theorem C14_reorg_before_reconf :
+  forall ch start lim h0 w,
+    cstart_ok ch start lim h0 -> creach (cinit ch start lim h0) w ->
+    forall id, clstate id (cw_log w) <> None.
+Proof. exact conf_reorg_before_reconf. Qed.
+
+(* The persistent form of "Confirmed => the tx HAS >= N confirmations" is
+   REFUTED by the faithful model (and pinned by lnd's own
+   TestTxNotifierReorgPartialConfirmation): after a partial reorg that removes
+   blocks above the tx's block, no NegativeConf is sent.  Reachable world under
+   all environment obligations: the client (N = 2) holds an un-negated
+   Confirmed{height 2, block 12}, the tx is at (2, 12) on the active chain, the
+   tip is 2, i.e. the tx has 1 confirmation. *)
+Theorem C14_conf_exact_partial_reorg_refuted :
+  exists w s c,
+    cstart_ok pr_chain 1 144 None /\ creach (cinit pr_chain 1 144 None) w /\
+    cw_pending w = false /\ cset (cw_st w) = Some s /\ cs_rescan s = RComplete /\
+    In c (cs_ntfns s) /\
+    clstate (c_id c) (cw_log w) = Some (Some (2, 12)) /\
+    cpos (cw_chain w) = Some (2, 12) /\
+    cur (cw_st w) < 2 + c_n c - 1.
+Proof. exact conf_partial_reorg_refuted. Qed.
+
+(* ================================================================== *)
 (* Without the obligation "rescan details are delivered while some client is
    registered" exactness is REFUTED (finding C14-F1): register, cancel, rescan
-   completes, the spending block is reorged out, a new client registers and is
-   told of a spend that is not on the active chain. *)
+   completes, the block is reorged out, a new client registers and is told of
+   a spend / confirmation that is not on the active chain. *)
 Theorem C14_spend_exact_cancel_refuted :
   exists ops w,
     sstart_ok [(3, None); (2, Some 0); (1, None)] 3 144 None /\
